@@ -255,7 +255,8 @@ def gen_case(seed, tier, index=0):
         world, dirs = gen_world(rng, tier)
     git = bool(world.get("git"))
     # the name of the root directory itself is part of the environment, not of the project's contents
-    rn = rng.wpick([(12, "p"), (2, "subprojects"), (1, "LICENSES"), (1, ".reuse"), (1, "a b"), (1, "x.license"), (1, "LICENSE")])
+    rn = rng.wpick([(12, "p"), (2, "subprojects"), (1, "LICENSES"), (1, ".reuse"), (1, "a b"), (1, "x.license"), (1, "LICENSE"),
+                    (2, "p[1]"), (1, "st*r"), (1, "q?")])
     if rn != "p":
         world["root_name"] = rn
     ncmd = rng.randint(2, 3)
